@@ -189,4 +189,63 @@ def gface6 (tl : Bool) : GIface (proto6 tl) core Conn6.cfg Timed where
           rfl (by cases tl <;> simp_all [strip, hasToken])]
         cases tl <;> simp [strip, feedBody_ctl_pending] <;> rfl
 
+/-! ## the handshake steps, as equations -/
+
+/-- the token the acceptor ends up with: none towards a peer without tokens, the drawn one otherwise -/
+def tokB (tl : Bool) (nt : Nat) : Option Nat := if tl then none else some nt
+
+theorem emit_connect : emit [.control 0 (some TOKEN_NONE) .connect] = .ok [.control 0 (some TOKEN_NONE) .connect] :=
+  Tw.Conn6.emit_ok (by
+    intro p hp; simp at hp; subst hp
+    exact Tw.Conn6.control_valid 0 _ .connect (by intro r hr; cases hr))
+
+theorem tick_connecting (now : Nat) (s : Timeout) (h : s.triggered now = true) :
+    P6.call now [] ⟨.connecting, s⟩ .tick =
+      .ok { conn := ⟨.connecting, Timeout.after now sendUs⟩, sent := [.control 0 (some TOKEN_NONE) .connect] } := by
+  simp [P6.call, Conn6.tick, h, tickAction, sendControl, controlPacket, emit_connect]
+
+theorem tick_unconnected (now : Nat) (s : Timeout) :
+    ∃ s', P6.call now [] ⟨.unconnected, s⟩ .tick = .ok { conn := ⟨.unconnected, s'⟩, sent := [] } := by
+  by_cases h : s.triggered now = true
+  · exact ⟨.inactive, by simp [P6.call, Conn6.tick, h, tickAction]⟩
+  · exact ⟨s, by simp [P6.call, Conn6.tick, h]⟩
+
+theorem recv_unc_connect (tl : Bool) (now : Nat) (draws : List Nat) (s : Timeout) (alt : Alt) (nt : Nat)
+    (hnt : tokenRandom draws = some nt) :
+    P6.recv tl now draws ⟨.unconnected, s⟩ (.control 0 (some TOKEN_NONE) .connect) alt =
+      .ok { conn := ⟨.pending (tokB tl nt), Timeout.after now sendUs⟩,
+            sent := [.control 0 (tokB tl nt) .connectAccept] } := by
+  have hem : ∀ t, emit [.control 0 t .connectAccept] = .ok [.control 0 t .connectAccept] := fun t => emit_ctl 0 t 2
+  cases tl <;>
+    simp [P6.recv, feed, Conn.hint, State.token?, wireRead, strip, hasToken, Packet.tokenAck?, feedBody, hnt,
+      tickAction, sendControl, controlPacket, hem, tokB]
+
+theorem tokenRandom_ne {draws : List Nat} {nt : Nat} (h : tokenRandom draws = some nt) : nt ≠ TOKEN_NONE := by
+  induction draws with
+  | nil => simp [tokenRandom] at h
+  | cons d ds ih =>
+    simp only [tokenRandom] at h
+    split at h
+    · rename_i hd; injection h with h; subst h; exact hd.1
+    · exact ih h
+
+theorem recv_pend_connect (tl : Bool) (now : Nat) (draws : List Nat) (s : Timeout) (alt : Alt) (nt : Nat)
+    (hne : nt ≠ TOKEN_NONE) :
+    P6.recv tl now draws ⟨.pending (tokB tl nt), s⟩ (.control 0 (some TOKEN_NONE) .connect) alt =
+      .ok { conn := ⟨.pending (tokB tl nt), s⟩ } := by
+  cases tl <;>
+    simp [P6.recv, feed, Conn.hint, State.token?, wireRead, strip, hasToken, Packet.tokenAck?, feedBody, tokB, hne]
+
+theorem recv_conn_ca (tl : Bool) (now : Nat) (draws : List Nat) (s : Timeout) (alt : Alt) (tb : Option Nat)
+    (htb : tl = true → tb = none) :
+    P6.recv tl now draws ⟨.connecting, s⟩ (.control 0 tb .connectAccept) alt =
+      .ok { conn := ⟨.online tb .new, s⟩, sent := [.control 0 tb .accept], events := [.ready] } := by
+  have hem : emit [.control 0 tb .accept] = .ok [.control 0 tb .accept] := emit_ctl 0 tb 1
+  cases tl
+  · simp [P6.recv, feed, Conn.hint, State.token?, wireRead, Packet.tokenAck?, feedBody, sendControl, controlPacket,
+      hem, Online.new]
+  · have := htb rfl; subst this
+    simp [P6.recv, feed, Conn.hint, State.token?, wireRead, strip, Packet.tokenAck?, feedBody, sendControl,
+      controlPacket, hem, Online.new]
+
 end Tw.NetSim.P6
